@@ -24,7 +24,7 @@ RULE = (
 )
 ASSUMPTIONS = ["handlers define every evaluated metric (the statement's quantifier)", "instance counts are taken from the reference model"]
 MINIMUM = {"C08.zero_tp_judged": 5000, "C08.handler_independence_judged": 200}
-BUDGET_S = {"quick": 600, "thorough": 900}
+BUDGET_S = {"quick": 1200, "thorough": 900}
 EXHAUSTIVE = {"quick": True, "thorough": True}
 
 RES = ["INF", "NAN", "ZERO", "ONE", "NONE"]
